@@ -18,7 +18,7 @@ import numpy as np
 
 import common
 from common import F, Rng, close_all, digest, err_class, fl, pmat, pvec, rs
-from fpca_util import (trapz_weights, multi_lowrank, pow2, EigCapture, Fm, Fv, Smat, Svec, curves, dense, grid, non_increasing, quiet,
+from fpca_util import (trapz_weights, multi_lowrank, pow2, special_grids, EigCapture, Fm, Fv, Smat, Svec, curves, dense, grid, non_increasing, quiet,
                        raw_from_call, sel_to_model, sel_to_py)
 
 PROP = "C01"
@@ -414,6 +414,15 @@ def _auto_fraction_cases(rng: Rng, tier):
             yield dict(kind="mfpca", method=method, sel=["all"], auto_fracs=True, comps=comps, dk="auto-fractions")
 
 
+def _ufpca_special_grid_cases(rng: Rng, tier):
+    """Offset / step ratio and non-uniform × tiny scale (every run): see `fpca_util.special_grids`."""
+    for i, (label, t) in enumerate(special_grids(rng, rng.randint(5, 8))):
+        method = ["inner-product", "covariance"][i % 2]
+        X, dk = curves(rng, rng.randint(4, 7), t, "smooth" if method == "inner-product" else None)
+        yield dict(kind="ufpca", method=method, normalize=False, sel=rng.choice([["all"], ["int", 2]]), dk=f"grid:{label}",
+                   t=Svec(t), X=Smat(X))
+
+
 def _ufpca_large_cases(rng: Rng, tier):
     """Many observations (Gram route) / many grid points (covariance route) around fast-path thresholds,
     the other dimension tiny; a few integer components; rough data so that the noise variance is positive."""
@@ -474,6 +483,7 @@ def gen_cases(rng: Rng, tier):
     yield from _ufpca_cases(rng, tier)
     yield from _auto_fraction_cases(rng, tier)
     yield from _ufpca_amplitude_cases(rng, tier)
+    yield from _ufpca_special_grid_cases(rng, tier)
     yield from _ufpca_noisy_fraction_cases(rng, tier)
     yield from _ufpca_large_cases(rng, tier)
     yield from _mfpca_cases(rng, tier)
